@@ -13,12 +13,14 @@ package main
 
 import (
 	"bytes"
+	"encoding/hex"
 	"encoding/json"
 	"fmt"
 	"os"
 	"strings"
 	"syscall"
 	"time"
+	"unicode/utf8"
 
 	"rare/pkg/multiterm"
 	"verif/runner"
@@ -45,6 +47,72 @@ type Case struct {
 	// After: updates applied to the in-place writer after Close, followed by a
 	// second Close. The statement is silent about them: only "no panic" is judged.
 	After []Upd `json:"after,omitempty"`
+}
+
+// Texts may hold bytes that are not valid UTF-8, which encoding/json would
+// silently replace by U+FFFD: such texts are additionally stored as hex
+// (text_hex), and read back from there, so that a replay re-executes exactly
+// the case.
+type updPlain Upd
+
+type updWire struct {
+	updPlain
+	TextHex string `json:"text_hex,omitempty"`
+}
+
+func (u Upd) MarshalJSON() ([]byte, error) {
+	a := updWire{updPlain: updPlain(u)}
+	if !utf8.ValidString(u.Text) {
+		a.TextHex = hex.EncodeToString([]byte(u.Text))
+	}
+	return json.Marshal(a)
+}
+
+func (u *Upd) UnmarshalJSON(b []byte) error {
+	var a updWire
+	if err := json.Unmarshal(b, &a); err != nil {
+		return err
+	}
+	*u = Upd(a.updPlain)
+	if a.TextHex != "" {
+		raw, err := hex.DecodeString(a.TextHex)
+		if err != nil {
+			return err
+		}
+		u.Text = string(raw)
+	}
+	return nil
+}
+
+type casePlain Case
+
+type caseWire struct {
+	casePlain
+	TextHex string `json:"text_hex,omitempty"`
+}
+
+func (c Case) MarshalJSON() ([]byte, error) {
+	a := caseWire{casePlain: casePlain(c)}
+	if !utf8.ValidString(c.Text) {
+		a.TextHex = hex.EncodeToString([]byte(c.Text))
+	}
+	return json.Marshal(a)
+}
+
+func (c *Case) UnmarshalJSON(b []byte) error {
+	var a caseWire
+	if err := json.Unmarshal(b, &a); err != nil {
+		return err
+	}
+	*c = Case(a.casePlain)
+	if a.TextHex != "" {
+		raw, err := hex.DecodeString(a.TextHex)
+		if err != nil {
+			return err
+		}
+		c.Text = string(raw)
+	}
+	return nil
 }
 
 // seqOf returns the update sequence of a seq or gen case.
@@ -152,7 +220,7 @@ func buildModel(seq []Upd) model {
 // line"; "A line longer than the terminal width is cut to a prefix that
 // [does not] exceed the width in visible characters".
 func (m model) expectLine(i int, cut int) string {
-	return cutVisible(visibleOf(m.latest[i]), cut)
+	return norm(cutVisible(visibleOf(m.latest[i]), cut))
 }
 
 func setGlobals(width int, trim bool) {
@@ -318,7 +386,7 @@ func runSeq(cap *capture, c Case) (res result) {
 			res.fail("C20/virtualterm/line-count", "LineCount()=%d want %d", v.LineCount(), wantLines)
 		}
 		for i := 0; i < wantLines; i++ {
-			if v.Get(i) != m.latest[i] {
+			if norm(v.Get(i)) != norm(m.latest[i]) {
 				res.fail("C20/virtualterm/wrong-line", "Get(%d)=%q want %q", i, v.Get(i), m.latest[i])
 			}
 		}
@@ -361,21 +429,21 @@ func checkBuffered(res *result, who string, out []byte, m model, c Case, wantLin
 	for i, l := range lines {
 		raw := m.latest[i]
 		if !c.Trim {
-			if l != raw {
+			if norm(l) != norm(raw) {
 				res.fail("C20/"+who+"/wrong-line", "line %d is %q, want %q", i, l, raw)
 			}
 		} else {
-			if !strings.HasPrefix(raw, l) {
+			if !isCutOf(raw, l) {
 				res.fail("C20/"+who+"/not-a-prefix", "line %d is %q, not a prefix of %q", i, l, raw)
 			}
 			if endsInsideSGR(l) {
 				res.fail("C20/"+who+"/cut-inside-escape", "line %d %q ends inside an escape sequence", i, l)
 			}
-			if got, want := visibleOf(l), m.expectLine(i, c.Width); got != want {
+			if got, want := norm(visibleOf(l)), m.expectLine(i, c.Width); got != want {
 				res.fail("C20/"+who+"/wrong-line", "line %d shows %q, want %q", i, got, want)
 			}
 		}
-		if got := visibleOf(l); screen != nil && got != screen.line(i) {
+		if got := norm(visibleOf(l)); screen != nil && got != screen.line(i) {
 			res.fail("C20/"+who+"/differs-from-live-screen", "line %d shows %q, the in-place writer left %q", i, got, screen.line(i))
 		}
 	}
@@ -398,15 +466,15 @@ func runTrimLine(c Case) (res result) {
 	}
 	out := bb.String()
 	vis := visibleOf(c.Text)
-	res.nontrivial = c.Trim && len([]rune(vis)) > c.Width && (strings.Contains(c.Text, "\x1b") || len(c.Text) != len([]rune(c.Text)))
+	res.nontrivial = c.Trim && len([]rune(vis)) > c.Width && (strings.Contains(c.Text, "\x1b") || !isASCII(c.Text))
 	res.outcome = out
 	if !c.Trim {
-		if out != c.Text {
+		if norm(out) != norm(c.Text) {
 			res.fail("C20/linetrim/trim-off-modified", "wrote %q for %q with trimming off", out, c.Text)
 		}
 		return
 	}
-	if !strings.HasPrefix(c.Text, out) {
+	if !isCutOf(c.Text, out) {
 		res.fail("C20/linetrim/not-a-prefix", "wrote %q, not a prefix of %q", out, c.Text)
 		return
 	}
@@ -416,10 +484,19 @@ func runTrimLine(c Case) (res result) {
 	got := visibleOf(out)
 	if n := len([]rune(got)); n > c.Width {
 		res.fail("C20/linetrim/exceeds-width", "prefix %q has %d visible runes, width %d", out, n, c.Width)
-	} else if want := cutVisible(vis, c.Width); got != want {
+	} else if want := cutVisible(vis, c.Width); norm(got) != norm(want) {
 		res.fail("C20/linetrim/cut-too-short", "prefix shows %q, want %q (width %d)", got, want, c.Width)
 	}
 	return
+}
+
+func isASCII(s string) bool {
+	for i := 0; i < len(s); i++ {
+		if s[i] >= 0x80 {
+			return false
+		}
+	}
+	return true
 }
 
 // ---------------------------------------------------------------- enumeration
@@ -440,6 +517,18 @@ var (
 	// the same characters inside whole lines, for the update-sequence passes
 	textsWide = []string{"", "a\u00a0b\u2007c\u202fd", "\x1b[31m\u00a0\u1e9e\x1b[0m\u202f\U0001d11ex", "\u2007\u2007\x1b[1m\u00a0\u00a0\x1b[0m", "\U0001d11e\u1e9eé"}
 	linesWide = []int{0, 1, 3}
+	// Text that is NOT valid UTF-8 (Latin-1 / CP1252 log lines, truncated
+	// multi-byte sequences). Every byte that is not part of a valid sequence is
+	// one column (see Assumptions). Tokens: a lone continuation byte, lone lead
+	// bytes of a 2-, 3-, 4-byte sequence, a truncated 3-byte (E2 80) and 4-byte
+	// (F0 9D 84) sequence, 0xFF, next to ASCII, a valid 2-byte letter and colour
+	// escapes. Concatenations can form the valid characters U+00C0 (C3 80),
+	// U+2000 (E2 80 80) and U+1D100 (F0 9D 84 80): single-column ones.
+	trimToksInvalid = []string{"a", "\x80", "\xc3", "\xe2", "\xf0", "\xe2\x80", "\xf0\x9d\x84", "\xff", "é", "\x1b[31m", "\x1b[0m"}
+	// whole lines with such bytes, for the update-sequence passes: at the end, in
+	// the middle, directly before and after an escape, runs of them
+	textsInvalid = []string{"", "caf\xe9", "a\x80b\xc3c\xe2\x80d\xff", "\x1b[31m\xa0\xe9\x1b[0m\xf0\x9d\x84x", "\xe9\xe9\x1b[1m\xe9\xe9\x1b[0m\xe9"}
+	linesInvalid = []int{0, 1, 3}
 )
 
 type cfg struct {
@@ -459,10 +548,11 @@ func passes(quick bool) []pass {
 	base := []cfg{{1, true}, {3, true}, {5, true}, {80, true}, {80, false}}
 	ext := []cfg{{2, true}, {4, true}, {6, true}, {4, false}}
 	wide := []cfg{{1, true}, {2, true}, {3, true}, {5, true}, {7, true}, {3, false}}
+	invalid := []cfg{{1, true}, {2, true}, {3, true}, {4, true}, {5, true}, {7, true}, {3, false}}
 	if quick {
-		return []pass{{"base", linesBase, textsBase, 4, base}, {"ext", linesExt, textsExt, 3, ext}, {"wide", linesWide, textsWide, 3, wide}}
+		return []pass{{"base", linesBase, textsBase, 4, base}, {"ext", linesExt, textsExt, 3, ext}, {"wide", linesWide, textsWide, 3, wide}, {"invalid-utf8", linesInvalid, textsInvalid, 3, invalid}}
 	}
-	return []pass{{"base", linesBase, textsBase, 5, base}, {"ext", linesExt, textsExt, 4, ext}, {"wide", linesWide, textsWide, 4, wide}}
+	return []pass{{"base", linesBase, textsBase, 5, base}, {"ext", linesExt, textsExt, 4, ext}, {"wide", linesWide, textsWide, 4, wide}, {"invalid-utf8", linesInvalid, textsInvalid, 4, invalid}}
 }
 
 // trimPass: one token alphabet for the WriteLineNoWrap pass and the maximum
@@ -475,9 +565,9 @@ type trimPass struct {
 
 func trimPasses(quick bool) []trimPass {
 	if quick {
-		return []trimPass{{"ascii", trimToks, 5}, {"wide", trimToksWide, 5}}
+		return []trimPass{{"ascii", trimToks, 5}, {"wide", trimToksWide, 5}, {"invalid-utf8", trimToksInvalid, 4}}
 	}
-	return []trimPass{{"ascii", trimToks, 7}, {"wide", trimToksWide, 6}}
+	return []trimPass{{"ascii", trimToks, 7}, {"wide", trimToksWide, 6}, {"invalid-utf8", trimToksInvalid, 5}}
 }
 
 var trimWidths = []int{1, 2, 3, 4, 5, 80}
@@ -497,7 +587,7 @@ func report(w *runner.W, c Case, res result) {
 		w.Add("linetrim_cases", 1)
 	}
 	if c.Fam != "" {
-		w.Add("cases_"+c.Fam+"_family", 1)
+		w.Add("cases_"+strings.ReplaceAll(c.Fam, "-", "_")+"_family", 1)
 	}
 	if res.nontrivial && w.WantSample() && (c.Kind == "trimline" || len(c.Seq) >= 3) {
 		w.Sample(c)
@@ -668,6 +758,17 @@ func worker(w *runner.W) {
 			}
 		}
 	}
+	// undecodable bytes placed around the cut and at the end of the line
+	for _, wd := range sp.badWidths {
+		for _, text := range badTexts(wd) {
+			if !exec(Case{Kind: "trimline", Fam: "invalid-utf8", Width: wd, Trim: true, Text: text}) {
+				return
+			}
+			if !exec(Case{Kind: "seq", Fam: "invalid-utf8", Width: wd, Trim: true, Seq: widthSeq(text, widthText(wd/2, "plain", "", 0))}) {
+				return
+			}
+		}
+	}
 	// updates after Close (history): every sequence of 0..2 updates, Close,
 	// every sequence of 1..2 updates, Close
 	{
@@ -703,6 +804,7 @@ type sweepP struct {
 	maxLines, maxUpdates int
 	maxWidth, maxText    int
 	lineCfgs, updCfgs    []cfg
+	badWidths            []int // widths of the invalid-utf8 placement family
 }
 
 func sweepParams(quick, bigPipe bool) sweepP {
@@ -711,7 +813,16 @@ func sweepParams(quick, bigPipe bool) sweepP {
 		lineCfgs: []cfg{{80, true}, {4, true}, {80, false}},
 		updCfgs:  []cfg{{3, true}, {6, true}, {80, true}, {80, false}},
 	}
+	for wd := 1; wd <= 16; wd++ {
+		p.badWidths = append(p.badWidths, wd)
+	}
+	p.badWidths = append(p.badWidths, 31, 32, 33, 40)
 	if !quick {
+		p.badWidths = nil
+		for wd := 1; wd <= 70; wd++ {
+			p.badWidths = append(p.badWidths, wd)
+		}
+		p.badWidths = append(p.badWidths, 127, 128, 129)
 		p.maxLines, p.maxUpdates, p.maxWidth, p.maxText = 4097, 1025, 70, 140
 		if !bigPipe {
 			p.maxLines = 1025
@@ -761,7 +872,7 @@ func rule(prop, tier string) string {
 	for _, tp := range trimPasses(quick) {
 		fmt.Fprintf(&sb, "pass linetrim-%s: multiterm.WriteLineNoWrap on ALL concatenations of 0..%d tokens of {%s} x widths %v with trimming on, and width 3 with trimming off; ", tp.name, tp.maxLen, q(tp.toks), trimWidths)
 	}
-	sb.WriteString("the wide alphabets hold single-column non-ASCII characters of 2, 3 and 4 UTF-8 bytes and of the categories Zs (U+00A0 NO-BREAK SPACE, U+2007 FIGURE SPACE, U+202F NARROW NO-BREAK SPACE: not unicode.IsPrint, yet one column each), Ll/Lu (U+00E9, U+1E9E) and So (U+1D11E), mixed with ASCII and colour escapes; double-width glyphs and control characters are not in any alphabet. ")
+	sb.WriteString("the wide alphabets hold single-column non-ASCII characters of 2, 3 and 4 UTF-8 bytes and of the categories Zs (U+00A0 NO-BREAK SPACE, U+2007 FIGURE SPACE, U+202F NARROW NO-BREAK SPACE: not unicode.IsPrint, yet one column each), Ll/Lu (U+00E9, U+1E9E) and So (U+1D11E), mixed with ASCII and colour escapes; double-width glyphs and control characters are not in any alphabet. The invalid-utf8 alphabets (passes invalid-utf8 and linetrim-invalid-utf8) hold bytes that are NOT valid UTF-8, each counting as ONE visible column: a lone continuation byte (0x80, 0xA0), lone lead bytes of 2-, 3-, 4-byte sequences (0xC3, 0xE2/0xE9, 0xF0), truncated sequences (E2 80, F0 9D 84), 0xFF, at the end of a line, in the middle, in runs, directly before and after colour escapes (the token concatenations also form the valid single-column characters U+00C0, U+2000, U+1D100); in the output a raw undecodable byte and U+FFFD in its place are the same visible cell, so a cut line may be a byte-prefix of the text or a prefix with such bytes replaced by U+FFFD. ")
 	sp := sweepParams(quick, true)
 	var lc, uc []string
 	for _, c := range sp.lineCfgs {
@@ -771,8 +882,9 @@ func rule(prop, tier string) string {
 		uc = append(uc, fmt.Sprintf("width %d trim %v", c.width, c.trim))
 	}
 	fmt.Fprintf(&sb, "SIZE sweeps (signatures end in /size-family; sizes S(max) = 0..70 and 2^k-1, 2^k, 2^k+1 for k >= 7 up to max; element i carries i): (a) number of lines n in S(%d), shapes %v (asc-twice: lines 0..n-1 with distinct texts L<i>xxx, then all again with the same texts; gap-desc: line n-1 first, then 0, then n-2..1; rotate: lines 0..n-1, then line i gets the text of line i+1; uniform: the same text on every line, then another text on every second line bottom-up; zigzag: 0,n-1,1,n-2,... for n <= 257) x {%s}; (b) number of updates n in S(%d), update j to line j mod k (shapes *-bwd: (k-1)j mod k) for k in %v, text u<j> plus a pad of periodic length (shapes %v: growing 0..8, shrinking 8..0, triangle 0..6..0, constant), every fourth text bold, x {%s}; (c) text length n in 0..%d against width w in 1..%d with trimming on: n distinct single-column runes (ASCII then 2-byte letters) plain / a short escape in front of every rune / one escape of 5, 17 or 20 bytes (%s) starting after p visible runes for p in {0,w-2,w-1,w,w+1,n} with the reset at the end / ESC[38;5;196;1;4m after p runes with the reset one rune later; each text through WriteLineNoWrap and through the writers as the sequence (0,text),(1,x),(0,text),(1,text),(0,first n/2 runes). ", sp.maxLines, lineShapes, strings.Join(lc, "; "), sp.maxUpdates, updLines, updShapes, strings.Join(uc, "; "), sp.maxText, sp.maxWidth, q(sweepEscapes))
+	fmt.Fprintf(&sb, "INVALID UTF-8 AROUND THE CUT (signatures end in /invalid-utf8-family): for every width w in %v with trimming on, lines of n columns for n in {w-1,w,w+1,w+2,w+3,2w+2} of distinct ASCII letters and digits with ONE unit of undecodable bytes {%s} (lone continuation byte; lone lead byte of a 2-, 3-, 4-byte sequence; truncated 3- and 4-byte sequence; overlong encoding; 0xFF) starting at column p for every p in w-4..w+2 (its bytes before the cut, exactly AT the cut = the w-th column, one before, one after, across it) and as the last and the second-to-last thing of the line, in the arrangements %v (esc-after: ESC[31m directly after the unit, reset at the end; colour-before: ESC[31m at the start and the reset directly before the unit, so that a line can be longer than the width only through escape bytes and end with the undecodable byte; wrapped: colour around the whole line); each text through WriteLineNoWrap and through TermWriter / BufferedTerm / VirtualTerm as the sequence (0,text),(1,x),(0,text),(1,text),(0,w/2 ASCII runes). ", sp.badWidths, q(badUnits), badArrangements)
 	sb.WriteString("HISTORY (signatures end in /history-family): every sequence of 0..2 updates over lines {0,2} x texts {empty, ab, coloured 8 runes}, Close, every sequence of 1..2 updates, Close, x {width 5 trim on; width 80 trim off}: the in-place writer must not panic (the statement is silent about the screen after Close, nothing else is judged; the buffered and virtual writers refuse updates after Close by design and are not driven after Close). The same text written twice to a line with other lines written in between, and the same text moved to another line, are in the exhaustive passes and in the shapes asc-twice, rotate, uniform and (c). ")
-	sb.WriteString("states = distinct_outcomes = distinct emulator states (screen rows, cursor row/column, cursor visibility, width) reached before and after Close; transitions = updates + Close applied. non-trivial = (sequence) at least two updates of which one rewrites an already written line or moves to a lower line index; (linetrim) a text longer than the width that contains an escape sequence or a non-ASCII character")
+	sb.WriteString("states = distinct_outcomes = distinct emulator states (screen rows, cursor row/column, cursor visibility, width) reached before and after Close; transitions = updates + Close applied. non-trivial = (sequence) at least two updates of which one rewrites an already written line or moves to a lower line index; (linetrim) a text longer than the width that contains an escape sequence or a non-ASCII byte")
 	return sb.String()
 }
 
@@ -786,6 +898,7 @@ func main() {
 			return []string{
 				"the terminal implements the emulated subset: printables, CR, LF as pure line feed (the cursor column after LF is not relied on: the writer sends CR before writing), CSI n A clamped at the top, CSI 0 K, CSI ?25 l/h, SGR sequences zero-width; unbounded rows (a terminal that scrolls is not covered)",
 				"every rune that is not part of an SGR sequence occupies one column: the alphabets contain only single-column characters (ASCII, U+00A0, U+00E9, U+1E9E, U+2007, U+202F, U+2724, U+1D11E; East Asian Width N/Na/A); double-width glyphs (CJK, U+3000), combining marks and control characters are not covered, their column width is terminal-dependent",
+				"text that is not valid UTF-8: every byte that is not part of a valid UTF-8 sequence occupies ONE column (a terminal shows one replacement glyph for it; Go's rune decoding yields one utf8.RuneError per such byte, and the unchanged WriteLineNoWrap rewrites each to U+FFFD), so the two bytes of a truncated 3-byte sequence are two columns; a terminal that shows one glyph for a whole truncated sequence (the line is then narrower than counted, never wider) or none is not covered. \"cut to a prefix\": the output may keep such a byte or put U+FFFD in its place (same visible result); both are accepted, also with trimming off and by the emulator",
 				"right margin: a cursor resting just past the last column (pending wrap) does not wrap until the next printable, and erase-to-end-of-line in that position erases nothing; a terminal that erases the last cell there (VT100 last-column flag) is not covered",
 				"with trimming off (--notrim or not a TTY) nothing is cut and the emulator has no right margin: the sentence about cutting is checked with trimming on only",
 				"texts contain only complete SGR escape sequences (ESC [ digits ; m); a colour left switched on by a cut before its reset sequence is not a violation of the statement",
